@@ -51,6 +51,9 @@ T = {
  "C14": (True, "E1", "stateless exhaustive exploration of every next/next_frames(k)/is_exhausted history from every (capacity, prefill, start offset, source length) initial state on the real Buffered + explicit-state stateright BFS to fixpoint via witness replay",
          "340 initial states (capacity 1..4 x every (start,len) prefill x source length 0..2cap+1); every history to depth 5 (quick) / 7 (thorough); merged BFS on (ring start, ring len, pulled, delivered) to fixpoint; until_exhausted() from every initial state; oracle: prefill ++ source ++ equilibrium, pulls in units of capacity only on empty, exact exhaustion flag.",
          "Capacities above 4 and sources longer than 2cap+1 are not explored. Trusted: rustc/LLVM, stateright BFS.", "DESIGN.md §4 C14"),
+ "C08": (True, "E2", "exhaustive enumeration of ratio histories (every per-frame ratio sequence over 4-letter alphabets to length 5/6, 21 constant ratios x every constructor, every setter switch point) x source lengths x interpolators x frame formats on the real Converter with an instrumented source, against exact rational positions",
+         "For every configuration of the finite space the converter is run to exhaustion + 3: source pulls must equal floor(P_n) with P_n an exact rational (i128 x 2^-100), floor output = frame at the pulled index, linear output = exact blend within 4 ulp / 1 LSB and inside the two frames' interval, ratio 1 exact, is_exhausted() before every output, output counts for constant ratios; non-positive scale panics; labelled long runs for non-dyadic ratios.",
+         "Ratios come from finite alphabets (dyadic ones are checked exactly, others with a float tolerance of n*2^-50); sources of <=8 frames. Trusted: rustc/LLVM, IEEE division for mirrored ratio arithmetic.", "DESIGN.md §4 C08"),
 }
 ALL = ["C%02d" % i for i in range(1, 21)]
 
